@@ -278,6 +278,8 @@ fn gen_writer_setup(rng: &mut StdRng, ntasks: usize, ncalls: usize) -> Setup {
 /// other tasks append single blocks and read: a batch must land as one contiguous range.
 fn gen_batch_vs_append(rng: &mut StdRng, ntasks: usize) -> Setup {
     let pre: Vec<Vec<u8>> = (0..rng.gen_range(0..2)).map(|_| small_block(rng)).collect();
+    // every third setup has a long batch
+    let long: usize = if rng.gen_range(0..3) == 0 { [33usize, 64, 65, 100, 129, 257][rng.gen_range(0..6)] } else { 0 };
     let mut tasks = vec![];
     for t in 0..ntasks {
         let mut calls = vec![];
@@ -285,10 +287,17 @@ fn gen_batch_vs_append(rng: &mut StdRng, ntasks: usize) -> Setup {
             if rng.gen_bool(0.5) {
                 calls.push(Call::Info);
             }
-            calls.push(Call::Batch((0..rng.gen_range(5..12)).map(|_| small_block(rng)).collect()));
+            if long > 0 {
+                // a long batch of identical one-byte blocks (one run in the trace): sizes around
+                // the powers of two, where an implementation might cut a batch into pieces
+                calls.push(Call::Batch((0..long).map(|_| vec![0x61u8]).collect()));
+            } else {
+                calls.push(Call::Batch((0..rng.gen_range(5..12)).map(|_| small_block(rng)).collect()));
+            }
         } else {
             for _ in 0..rng.gen_range(1..=2) {
-                calls.push(if rng.gen_bool(0.7) { Call::Append(small_block(rng)) } else { Call::Get(rng.gen_range(0..6)) });
+                let hi = if long > 0 { long as u64 + 2 } else { 6 };
+                calls.push(if rng.gen_bool(0.7) { Call::Append(small_block(rng)) } else { Call::Get(rng.gen_range(0..hi)) });
             }
         }
         tasks.push(calls);
